@@ -31,7 +31,7 @@ func appendSimplifierNotEmpty(fi *finfo, buf []byte, rv reflect.Value, addr uint
 }
 
 func appendSimplifierAddr(fi *finfo, buf []byte, rv reflect.Value, addr uintptr, safe bool) ([]byte, any, appendStatus) {
-	v := rv.FieldByIndex(fi.index).Addr().Interface()
+	v := addrOf(rv.FieldByIndex(fi.index)).Interface()
 	buf = append(buf, fi.jkey...)
 
 	return buf, v.(alt.Simplifier).Simplify(), aChanged
